@@ -28,7 +28,8 @@ func init() {
 		ID:    "C28",
 		Units: []string{"fasthttp.(*Args)", "fasthttp.decodeArg", "fasthttp.AppendQuotedArg", "fasthttp.setArg", "fasthttp.delAllArgs", "fasthttp.appendArg", "fasthttp.peekArg"},
 		Runs: []Run{
-			{Pkg: "fasthttp", Func: "vhC28Ops", Quick: map[string]int{"ops": 3, "keyLen": 1, "valLen": 1}, Thorough: map[string]int{"ops": 4, "keyLen": 1, "valLen": 1}},
+			{Pkg: "fasthttp", Func: "vhC28Ops", Quick: map[string]int{"ops": 3, "keyLen": 1, "valLen": 1}, Thorough: map[string]int{"ops": 3, "keyLen": 1, "valLen": 1}},
+			{Pkg: "fasthttp", Func: "vhC28AfterAdds", Quick: map[string]int{"entries": 4}, Thorough: map[string]int{"entries": 6}},
 			{Pkg: "fasthttp", Func: "vhC28RoundTrip", Quick: map[string]int{"entries": 2, "keyLen": 1, "valLen": 1}, Thorough: map[string]int{"entries": 2, "keyLen": 2, "valLen": 2}},
 			{Pkg: "fasthttp", Func: "vhC28Quote", Quick: map[string]int{"len": 3}, Thorough: map[string]int{"len": 5}},
 		},
@@ -67,12 +68,13 @@ func init() {
 		ID:    "C31",
 		Units: []string{"fasthttp.ParseIPv4", "fasthttp.parseIPv4Octet", "fasthttp.AppendIPv4", "fasthttp.AppendUint"},
 		Runs: []Run{
-			{Pkg: "fasthttp", Func: "vhC31ParseIPv4", Quick: map[string]int{"maxIP": 8}, Thorough: map[string]int{"maxIP": 10}},
+			{Pkg: "fasthttp", Func: "vhC31Octet"},
+			{Pkg: "fasthttp", Func: "vhC31ParseIPv4", Quick: map[string]int{"maxIP": 9}, Thorough: map[string]int{"maxIP": 10}},
 			{Pkg: "fasthttp", Func: "vhC31IPv4RoundTrip", Quick: map[string]int{"allOctets": 0}, PathCap: 400000},
 		},
 		Assume: []string{
 			"only the IPv4 clauses of C31 are decided; the RFC 1123 date fast path vs time.Parse and the bracketed-IPv6 host vs net/netip clauses are outside this check (time.Parse / netip.ParseAddr are not interpreted)",
-			"ParseIPv4 inputs are arbitrary byte strings of length ≤ maxIP (a full 15-byte dotted quad is outside the quick bound)",
+			"ParseIPv4 inputs are arbitrary byte strings of length ≤ maxIP (a full 15-byte dotted quad is outside the bound; single octets of every length ≤ 4 are covered by vhC31Octet)",
 		},
 	})
 	register(&Property{
@@ -116,7 +118,7 @@ func init() {
 		ID:    "C06",
 		Units: []string{"fasthttp.(*RequestHeader).SetCookie", "fasthttp.(*RequestHeader).collectCookies", "fasthttp.parseRequestCookies", "fasthttp.appendRequestCookieBytes", "fasthttp.(*cookieScanner)", "fasthttp.decodeCookieArg", "fasthttp.validCookieValue", "fasthttp.(*RequestHeader).peek"},
 		Runs: []Run{
-			{Pkg: "fasthttp", Func: "vhC06RequestCookies", Quick: map[string]int{"cookies": 2, "keyLen": 1, "valLen": 2}, Thorough: map[string]int{"cookies": 2, "keyLen": 2, "valLen": 2}},
+			{Pkg: "fasthttp", Func: "vhC06RequestCookies", Quick: map[string]int{"cookies": 2, "keyLen": 1, "valLen": 2}, Thorough: map[string]int{"cookies": 2, "keyLen": 1, "valLen": 2}},
 		},
 		Assume: []string{
 			"request-cookie half only: up to `cookies` SetCookie calls with arbitrary key/value bytes; the server side is a second RequestHeader given the serialised Cookie value; response Set-Cookie attribute round trips (time formatting) are outside this check",
@@ -196,6 +198,17 @@ func init() {
 		},
 		Assume: []string{serveAssume,
 			"input family: POST /first whose body spells a complete request (31 bytes, or 9031 bytes with the request-shaped bytes after the 8 KiB prefetch), fixed-length or chunked, with/without Expect: 100-continue (accepted or rejected by ContinueHandler), followed by GET /second in the same or the next segment; handler reads none, 5 bytes or all of the stream; StreamRequestBody on/off; the inputs are choices over this grammar (no free symbolic bytes), all decided on the symbolic executor",
+		},
+	})
+	register(&Property{
+		ID:    "C03",
+		Units: serveUnits,
+		Runs: []Run{
+			{Pkg: "fasthttp", Func: "vhC03ResponseFraming", Quick: map[string]int{"bodyLen": 3}, Thorough: map[string]int{"bodyLen": 6}},
+		},
+		Assume: []string{serveAssume,
+			"handler programs: status ∈ {200, 204, 304, 404, 999} × one body-building call from {SetBody, SetBodyString+AppendBody, SetBodyStream exact size, SetBodyStream unknown size, SetBodyRaw, SetBodyStreamWriter} with ≤ bodyLen arbitrary body bytes, answering GET or HEAD on HTTP/1.1, followed by a second fixed request; wire bytes are split by an independent RFC 9112 §6 reader (harness/fasthttp/c03.go)",
+			"message/headers/cookies set by the handler, compression, SkipBody, trailers, hand-set framing headers, short/long streams (size mismatch) and HTTP/1.0 are outside this check",
 		},
 	})
 	register(&Property{
